@@ -2,6 +2,7 @@ package props
 
 import (
 	"ergo.services/ergo/gen"
+	"fmt"
 
 	"verifsim/simkit"
 )
@@ -133,6 +134,19 @@ func (c12) Run(e *simkit.Env, cc any) {
 				}
 			}
 		case "call", "callimportant":
+			if s.op.ErrReply && len(got) == 1 {
+				// the receiver answered with an error of its own: the caller gets that error (or
+				// nothing in time), never a value and never another error
+				want := fmt.Sprintf("refused-%d", s.id)
+				if s.err == nil || (s.err.Error() != want && !errIs(s.err, gen.ErrTimeout)) {
+					e.Fail("C12/wrong-reply", "%s id=%d was answered with the error %q but returned (%#v, %v)", s.op.Kind, s.id, want, s.reply, s.err)
+					return
+				}
+				if s.err.Error() == want {
+					e.Probe("custom-error-reply")
+				}
+				break
+			}
 			if s.err == nil {
 				rep, ok := s.reply.(ndMsg)
 				if !ok || rep.ID != -s.id {
